@@ -78,6 +78,8 @@ func (v *Validator) Valid(n parsley.Node, e *gram.Expr, pos int) bool {
 			return true
 		}
 		return v.fail("expected EMPTY at %d, got %T", pos, n)
+	case gram.OpSuppress:
+		return v.Valid(n, e.Kids[0], pos)
 	case gram.OpNT:
 		key := fmt.Sprintf("%d/%d/%p", e.NT, pos, n)
 		if _, isEmpty := n.(ast.EmptyNode); isEmpty {
